@@ -200,8 +200,11 @@ class Receiver(object):
         self.agent._cl_agent['cap'] = self.cl
         self.config.tx_route_table.append(TxRouteItem(eid_pattern=re.compile('.*'), next_nodeid='dtn://rpt/', cl_type='cap'))
         self._probe = []
-        self.agent._rx_chain.append(ChainStep(order=25, name='verif probe', action=self._probe_step))
-        self.agent._rx_chain.sort()
+        # the probe goes in front of the first step of order >= 30 WITHOUT re-sorting the chain: the order in
+        # which the agent itself left its chain (Agent.__init__ sorts it) stays what is exercised
+        chain = self.agent._rx_chain
+        pos = next((i for i, st in enumerate(chain) if st.order >= 30), len(chain))
+        chain.insert(pos, ChainStep(order=25, name='verif probe', action=self._probe_step))
         self._last = []
         orig = self.agent.recv_bundle
 
